@@ -313,6 +313,7 @@ def handle (op : String) (args : List String) : String :=
   | "seq-view-spec", [_w, ops] => orBad ((parseOps parseSv ops).map runSvSpec)
   | "seqled-array", [k, ops] =>
     if k == "i" then orBad ((parseOps parseArr ops).map fun o => showTrace (SeqLedger.arrTrace 4 o))
+    else if k == "p" then orBad ((parseOps parseArr ops).map fun o => showTrace (SeqLedger.arrTrace 8 o))   -- sizeof(Plain) = 8
     else if k == "s" then orBad ((parseOps parseArr ops).map fun o => showTrace (SeqLedger.arrOwnTrace o))
     else "bad-op"
   | "seqled-string", [w, ops] =>
@@ -354,6 +355,8 @@ def handle (op : String) (args : List String) : String :=
       else none)
   | "seqtree", [prog] => runTreeLine prog
   | "seqmem", [what, simd, shift, size, seed] =>
+    let what := if what == "copyL" then "copy" else if what == "zeroL" then "zero"
+      else if what == "spec-copyL" then "spec-copy" else if what == "spec-zeroL" then "spec-zero" else what
     orBad (do
       let b ← parseBool simd
       some (runMem what b (← nat? shift) (← nat? size) (← nat? seed)))
